@@ -13,6 +13,7 @@ import NetqasmVerif.Driver.Exec
 import NetqasmVerif.Driver.Epr
 import NetqasmVerif.Driver.Asm
 import NetqasmVerif.Driver.Sdk
+import NetqasmVerif.Driver.Controller
 open Lean NQ.Drv
 
 def handlers : List (String → Json → Option Json) := [
@@ -31,7 +32,8 @@ def handlers : List (String → Json → Option Json) := [
   handleEpr,
   handleAsm,
   handleSdk,
-  handleSdkSem]
+  handleSdkSem,
+  handleCtl]
 
 def dispatch (j : Json) : Json :=
   match (jField? j "op").bind jStr? with
